@@ -258,7 +258,9 @@ Proof.
       + cbn [app]. rewrite tok_field_other by lia. reflexivity.
     - pose proof (parse_field_explicit_hit true 10 false int32_content 0%Z 0 10 [Z.to_N state]
                     (mech_field oc ++ tok_field t) state) as E0.
-      change (160 + 0) with 160 in E0. apply E0; try reflexivity; try (vm_compute; congruence). exact Hi. }
+      change (160 + 0) with 160 in E0.
+      apply E0; [lia|vm_compute; congruence|reflexivity|reflexivity|reflexivity| |exact Hi].
+      destruct Hs as [ -> | [ -> | [ -> | -> ] ] ]; vm_compute; reflexivity. }
   rewrite F0.
   (* field 1 *)
   assert (F1 : parse_field (Some 1) true 6 false oid_content [] (mech_field oc ++ tok_field t)
@@ -267,7 +269,8 @@ Proof.
     - destruct Hm as (_ & _ & Hd & Hc).
       pose proof (lenN_tlv 6 c ltac:(lia)) as L6.
       pose proof (parse_field_explicit_hit true 6 false oid_content [] 1 6 c (tok_field t) mech) as E1.
-      change (160 + 1) with 161 in E1. apply E1; try reflexivity; try lia; try (vm_compute; congruence). exact Hd.
+      change (160 + 1) with 161 in E1.
+      apply E1; [lia|vm_compute; congruence|reflexivity|reflexivity|reflexivity|lia|exact Hd].
     - subst mech. cbn [app]. rewrite tok_field_other by lia. reflexivity. }
   rewrite F1, tok_field_hit by exact Ht. reflexivity.
 Qed.
@@ -285,8 +288,9 @@ Proof.
       + cbn [app]. rewrite tok_field_other by lia. reflexivity.
     - pose proof (parse_field_explicit_inner_mismatch false 16 true seqof_oid_content [] 0 10 [Z.to_N state]
                     (mech_field oc ++ tok_field t)) as E0.
-      change (160 + 0) with 160 in E0. rewrite E0; try reflexivity; try (vm_compute; congruence).
-      right. left. vm_compute. congruence. }
+      change (160 + 0) with 160 in E0.
+      rewrite E0; [reflexivity|lia|vm_compute; congruence|right; left; vm_compute; congruence|].
+      destruct Hs as [ -> | [ -> | [ -> | -> ] ] ]; vm_compute; reflexivity. }
   rewrite F0. reflexivity.
 Qed.
 
@@ -361,4 +365,4 @@ Proof. repeat split; try discriminate; vm_compute; congruence. Qed.
 
 (* An absent token is reported absent (no token is invented). *)
 Lemma extract_absent_init : exists w, create_neg_token_init None = Ok w /\ extract_ntlm_token w = Err.
-Proof. eexists. split; vm_compute; reflexivity. Qed.
+Proof. eexists. split; [vm_compute; reflexivity|]. vm_compute. reflexivity. Qed.
